@@ -15,6 +15,7 @@ package customize
 // (records its argument).
 
 import (
+	"sync"
 	"strings"
 	"time"
 
@@ -39,6 +40,7 @@ import (
 // verifC15Hook stands for the user's customize webhook: it answers every call
 // with the same harness-chosen rules and counts the calls.
 type verifC15Hook struct {
+	mu    sync.Mutex // the hook may be called from several goroutines (C17)
 	rules []*v1alpha1.RelatedResourceRule
 	calls int
 	fail  int // the first `fail` calls return an error
@@ -50,6 +52,8 @@ func (verifC15HookError) Error() string { return "customize hook failed" }
 
 func (h *verifC15Hook) IsEnabled() bool { return true }
 func (h *verifC15Hook) Call(request api.WebhookRequest, response interface{}) error {
+	h.mu.Lock()
+	defer h.mu.Unlock()
 	h.calls++
 	if h.calls <= h.fail {
 		return verifC15HookError{}
